@@ -17,7 +17,7 @@ for pid in all_ids:
         'evidence_file': 'evidence/%s.json' % pid,
         'replay_cmd_template': './check %s --replay {path}' % pid,
         'engine': '+'.join(e for e in ('vx', 'kx', 'bx') if c.get(e)),
-        'level_claimed': {'category': c['level'], 'text': c.get('level_text', ''), 'design_ref': c.get('design_ref', 'DESIGN.md section 6 (%s: plan) and section 11 (as built: 11.1 engines and units, 11.3 levels, 11.5 functions under contract)' % pid)},
+        'level_claimed': {'category': c['level'], 'text': c.get('level_text', ''), 'design_ref': c.get('design_ref', 'DESIGN.md section 6 (%s: plan) and section 11 (as built: 11.1 engines and units, 11.3 levels, 11.5 functions under contract, 11.6 / 11.7 third session: rules R11-R14, functions newly proved)' % pid)},
         'level_note': c.get('level_note', '; '.join(c.get('trusted', []))[:1500]),
         'technique': c.get('technique', 'contract-based deductive verification (Verus on mechanically extracted functions; Kani function harnesses)'),
     })
